@@ -476,6 +476,19 @@ def r16_mut_self(sig_text, body, log):
 
 
 
+def r17_underscore_assign(src, log):
+    """`_ = E;` (destructuring assignment to the wildcard) -> `let _ = E;`"""
+    toks = lex(src); s = sig(toks)
+    edits = []
+    for k, i in enumerate(s):
+        if toks[i].kind == "ident" and toks[i].text == "_" and k + 1 < len(s) and toks[s[k + 1]].text == "=" \
+                and toks[s[k + 2]].text not in ("=", ">") and (k == 0 or toks[s[k - 1]].text in "{};"):
+            edits.append((toks[i].start, toks[i].end, "let _"))
+    log["R17"] = log.get("R17", 0) + len(edits)
+    return _replace(src, edits)
+
+
+
 def r11_bytelits(src, log, table):
     """b"lit" -> blit_<n>()  ; table collects the generated external_body functions.
     `E == b"lit"` (slice equality against a literal) -> `bytes_eq(E, blit_<n>())`, where the shim
@@ -760,6 +773,7 @@ def r7_apply(src, log, map_kind="result"):
 
 
 RULES = {
+    "R17": r17_underscore_assign,
     "R1": r1_attrs, "R2": r2_logs, "R3": r3_await, "R4": r4_select, "R5": r5_break, "R6": r6_index,
     "R12": r12_for,
 }
@@ -896,7 +910,7 @@ def process_template(tpl_path: str, repo: str, variant: dict | None = None) -> U
             dm2 = _DIR.match(tpl[j])
             if dm2 and dm2.group(1) == "end":
                 break
-            if dm2 and dm2.group(1) in ("sig", "contract", "loop", "closure", "before", "after", "wrap"):
+            if dm2 and dm2.group(1) in ("sig", "contract", "loop", "closure", "before", "after", "wrap", "check-before", "check-after"):
                 cur = [dm2.group(1), dm2.group(2).strip(), j + 2, []]
                 if dm2.group(1) == "sig":
                     cur[3].append(dm2.group(2))
@@ -1067,12 +1081,14 @@ def _gen_function(kv, sections, repo, res: UnitResult, variant) -> list:
         elif sname == "closure":
             kth = int(sarg.split()[0])
             inserts.append(("closure", kth, _label_lines(slines, sline, "closure", "%s.closure%d" % (fid, kth)), "optional" in sarg.split()))
-        elif sname in ("before", "after"):
+        elif sname in ("before", "after", "check-before", "check-after"):
             mm = re.match(r"/((?:[^/\\]|\\.)*)/\s*(\d+)?\s*(optional)?", sarg)
             if not mm:
                 raise ExtractError("template: bad anchor %r" % sarg)
-            inserts.append((sname, (mm.group(1).replace("\\/", "/"), int(mm.group(2) or 1)),
-                            _label_lines(slines, sline, "hint", "%s.hint" % fid), bool(mm.group(3))))
+            is_check = sname.startswith("check-")
+            inserts.append((sname.replace("check-", ""), (mm.group(1).replace("\\/", "/"), int(mm.group(2) or 1)),
+                            _label_lines(slines, sline, "contract" if is_check else "hint",
+                                         "%s.%s" % (fid, "check" if is_check else "hint")), bool(mm.group(3))))
     # loops: find loop header positions in the (rewritten) body by tokens
     body_now = "\n".join(g.text for g in glines)
     btoks = lex(body_now); bm = match_brackets(btoks); bs = sig(btoks)
